@@ -21,6 +21,18 @@ def n_var(typ, d, m, flag):
     return {"state": n - 1, "povm": (m - 1) * n, "gate": n * n - n, "mprocess": m * n * n - n}[typ]
 
 
+MP_SHAPE = {"v": None}     # outcome shape given to MProcess objects (None: the default (m,)); set per obligation by with_shape
+
+
+def with_shape(maker):
+    """obligation maker with an optional `shape` entry: MProcess objects are built with that multi-axis outcome shape
+    (every obligation runs in its own process, so the module-level setting is private to it)"""
+    def make(shape=None, **cfg):
+        MP_SHAPE["v"] = tuple(shape) if shape else None
+        return maker(**cfg)
+    return make
+
+
 def make_obj(typ, c, x, m, flag):
     """object of the given type from a stacked parameter vector x"""
     d = c.dim
@@ -31,7 +43,8 @@ def make_obj(typ, c, x, m, flag):
         return mk_povm(c, [x[k * n:(k + 1) * n] for k in range(m)], on_para_eq_constraint=flag)
     if typ == "gate":
         return mk_gate(c, x.reshape(n, n), on_para_eq_constraint=flag)
-    return mk_mprocess(c, [x[k * n * n:(k + 1) * n * n].reshape(n, n) for k in range(m)], on_para_eq_constraint=flag)
+    kw = {"shape": MP_SHAPE["v"]} if MP_SHAPE["v"] else {}
+    return mk_mprocess(c, [x[k * n * n:(k + 1) * n * n].reshape(n, n) for k in range(m)], on_para_eq_constraint=flag, **kw)
 
 
 def ref_stacked_from_var(typ, d, m, flag, v):
